@@ -575,7 +575,9 @@ fn factored_code_delta(prev_offset: u32, offset: u32, factor: u8) -> Result<u32>
     }
     let delta = offset - prev_offset;
     let factor = u32::from(factor);
-    let factored_delta = delta / factor;
+    let factored_delta = delta
+        .checked_div(factor)
+        .ok_or(Error::InvalidFrameCodeOffset(offset))?;
     if delta != factored_delta * factor {
         return Err(Error::InvalidFrameCodeOffset(offset));
     }
@@ -584,7 +586,10 @@ fn factored_code_delta(prev_offset: u32, offset: u32, factor: u8) -> Result<u32>
 
 fn factored_data_offset(offset: i32, factor: i8) -> Result<i32> {
     let factor = i32::from(factor);
-    let factored_offset = offset / factor;
+    // Fails for a zero factor, and for `i32::MIN / -1`.
+    let factored_offset = offset
+        .checked_div(factor)
+        .ok_or(Error::InvalidFrameDataOffset(offset))?;
     if offset != factored_offset * factor {
         return Err(Error::InvalidFrameDataOffset(offset));
     }
